@@ -108,9 +108,15 @@ func aeaPhi1z(eccent, qs float64) (float64, error) {
 		com = 1 - con*con
 		dphi = 0.5 * com * com / cosphi * (qs/(1-eccnts) - sinphi/com + 0.5/eccent*math.Log((1-con)/(1+con)))
 		phi = phi + dphi
-		if math.Abs(dphi) <= 1e-7 {
+		if math.Abs(dphi) <= 1e-10 {
 			return phi, nil
 		}
+	}
+	if math.Abs(dphi) <= 1e-7 {
+		// Next to a pole the corrections only halve from one step to the
+		// next and then drown in rounding; what has been reached is as good
+		// as the coarser tolerance that used to end the iteration.
+		return phi, nil
 	}
 	return math.NaN(), fmt.Errorf("proj.aeaPhi1z: didn't converge")
 }
